@@ -338,15 +338,20 @@ class P:
                         base, _ = g.rand_tpl(tid=256, opts=False, nfields=20, allow_var=False)
                         sock = {}
                         sent = 0
-                        for e in range(250):
-                            ip = "127.%d.%d.%d" % (1 + e // 200, 1 + (e // 14) % 200, 2 + e % 14)
-                            s_ = socket.socket(socket.AF_INET, socket.SOCK_DGRAM); s_.bind((ip, 0))
-                            for b0 in range(0, 400, 16):
-                                sets = [g.enc_set(2, b"".join(g.enc_tpl(Tpl(1000 + b0 + j, [], base.fields), False) for j in range(16)))]
-                                s_.sendto(g.enc_msg(sets), ("127.0.0.1", col.ports["ipfix"])); sent += 1
-                                if sent % 8 == 0:
-                                    time.sleep(0.001)
-                            s_.close()
+
+                        def bulk():
+                            n_ = 0
+                            for e in range(250):
+                                ip = "127.%d.%d.%d" % (1 + e // 200, 1 + (e // 14) % 200, 2 + e % 14)
+                                s_ = socket.socket(socket.AF_INET, socket.SOCK_DGRAM); s_.bind((ip, 0))
+                                for b0 in range(0, 400, 16):
+                                    sets = [g.enc_set(2, b"".join(g.enc_tpl(Tpl(1000 + b0 + j, [], base.fields), False) for j in range(16)))]
+                                    s_.sendto(g.enc_msg(sets), ("127.0.0.1", col.ports["ipfix"])); n_ += 1
+                                    if n_ % 8 == 0:
+                                        time.sleep(0.001)
+                                s_.close()
+                            return n_
+                        sent = bulk()
                         # one more ordinary announcement, acknowledged after the bulk
                         t, o = g.rand_tpl(tid=301, allow_var=False, opts=False, nfields=3)
                         dmsg, pub = announce("ipfix", "127.0.0.9", t, o)
@@ -379,6 +384,49 @@ class P:
                                 if sink.wait_for(lambda l: l == pub, 15.0) is None:
                                     viol.append({"cases": [], "verdict": "after the restart that followed a shutdown with a large template cache, data for a template acknowledged before "
                                                  "the signal (%s exporter %s, template %d) is not decoded: templates were lost" % (proto, ip, tid), "datagram": data.hex()}); break
+                            col.stop(signal.SIGKILL)
+                        # 5. a CRASH POINT inside the dump: the collector is killed hard (SIGKILL: OOM killer, power) while it is writing the
+                        # large cache at shutdown, at three different moments; whatever that leaves behind (a cut cache file, any residue
+                        # beside it), the NEXT life learns a template, is stopped cleanly and restarted: that template survives
+                        for ki, frac in enumerate((0.3, 0.6, 0.9)):
+                            if viol or not col.start():
+                                break
+                            bulk()
+                            time.sleep(0.4)
+                            col.p.send_signal(signal.SIGTERM)
+                            time.sleep(1.0 + frac * max(0.3, lat - 1.0))
+                            alive = col.p.poll() is None
+                            col.p.kill(); col.p.wait()
+                            left = sorted(os.listdir(d))
+                            if not col.start():
+                                viol.append({"cases": [], "verdict": "after a hard kill %.1f s into a shutdown with a large cache the collector does not start again" % (1.0 + frac * max(0.3, lat - 1.0))}); break
+                            with sink.lock:
+                                sink.lines.clear()
+                            t, o = g.rand_tpl(tid=310 + ki, allow_var=False, opts=False, nfields=3)
+                            ipk = "127.0.0.%d" % (20 + ki)
+                            # (the collector may still be reading a cache file of a hundred megabytes: announce until it answers)
+                            for _ in range(6):
+                                dmsg, pub = announce("ipfix", ipk, t, o)
+                                if pub is not None:
+                                    break
+                            rc, lat2, err = col.stop(signal.SIGTERM)
+                            log.append({"cycle": "kill-during-dump", "killed_after_s": round(1.0 + frac * max(0.3, lat - 1.0), 2), "was_still_running": alive,
+                                        "files_left": [f for f in left if not f.startswith("stderr")][:8], "next_life_acknowledged": pub is not None, "next_clean_stop_exit": rc, "latency_s": round(lat2, 2)})
+                            if pub is None:
+                                continue        # not acknowledged: nothing is promised for it
+                            if rc != 0:
+                                viol.append({"cases": [], "verdict": "the clean stop after a hard kill during a dump exits with status %s" % rc, "stderr_tail": err[-600:]}); break
+                            if not col.start():
+                                viol.append({"cases": [], "verdict": "the collector does not start after the clean stop that followed a hard kill during a dump"}); break
+                            with sink.lock:
+                                sink.lines.clear()
+                            self.send(ipk, col.ports["ipfix"], dmsg)
+                            if sink.wait_for(lambda l: l == pub, 6.0) is None:
+                                self.send(ipk, col.ports["ipfix"], dmsg)
+                                if sink.wait_for(lambda l: l == pub, 10.0) is None:
+                                    viol.append({"cases": [], "verdict": "the collector was killed hard %.1f s into a shutdown with a large cache (left in the cache directory: %s); the NEXT life learnt "
+                                                 "template %d of exporter %s, was stopped with SIGTERM (exit 0) and restarted: data for that template, acknowledged before the signal, is not decoded: "
+                                                 "templates were lost" % (1.0 + frac * max(0.3, lat - 1.0), [f for f in left if not f.startswith("stderr")][:6], t.tid, ipk), "datagram": dmsg.hex()})
                             col.stop(signal.SIGKILL)
             finally:
                 sink.close()
